@@ -421,7 +421,8 @@ pub fn method(rng: &mut Rng) -> u16 {
 
 pub fn key_spec(rng: &mut Rng) -> KeySpec {
     if rng.bool() {
-        KeySpec::ShortTerm { password: stable_string(rng, 1, 64) }
+        let max = if rng.chance(1, 8) { 130 } else { 64 };
+        KeySpec::ShortTerm { password: stable_string(rng, 1, max) }
     } else {
         KeySpec::LongTerm {
             user: stable_string(rng, 1, 64),
@@ -542,10 +543,35 @@ pub fn opaque_string_case(rng: &mut Rng, min: usize, max: usize) -> (String, Str
         ('E', '\u{301}', '\u{c9}'),
         ('O', '\u{303}', '\u{d5}'),
     ];
+    // code points whose NFC form differs although no combining mark is involved (canonical
+    // singletons, one composition exclusion): (raw, NFC)
+    const SINGLE: [(char, &str); 7] = [
+        ('\u{212b}', "\u{c5}"),
+        ('\u{2126}', "\u{3a9}"),
+        ('\u{212a}', "K"),
+        ('\u{f900}', "\u{8c48}"),
+        ('\u{1f71}', "\u{3ac}"),
+        ('\u{1fbb}', "\u{386}"),
+        ('\u{958}', "\u{915}\u{93c}"),
+    ];
     let target = min + rng.below((max - min) as u64 + 1) as usize;
     let (mut raw, mut enf) = (String::new(), String::new());
+    // which transformations this string exercises: all of them, or exactly one kind (so that a
+    // shortcut keyed on "no space / no mark present" is reached as well)
+    let mode = rng.below(5);
     while raw.len() < target.max(1) {
-        match rng.below(6) {
+        let class = match mode {
+            0 | 1 => rng.below(7),
+            2 => *rng.pick(&[0, 3, 4, 5]),
+            3 => *rng.pick(&[1, 3, 4, 5]),
+            _ => *rng.pick(&[2, 3, 4]),
+        };
+        match class {
+            2 => {
+                let (c, n) = *rng.pick(&SINGLE);
+                raw.push(c);
+                enf.push_str(n);
+            }
             0 => {
                 let c = *rng.pick(&SPACES);
                 raw.push(c);
